@@ -110,7 +110,8 @@ def run_scenario(sc: dict[str, Any]) -> dict[str, Any]:
         def project(res, o):
             md = o.get('metadata', {})
             return {'deleting': md.get('deletionTimestamp') is not None, 'match': (md.get('labels', {}) or {}).get('on') == 'yes' or not use_label,
-                    'fins': list(md.get('finalizers', []) or [])}
+                    'fins': list(md.get('finalizers', []) or []), 'rv': int(md['resourceVersion']),
+                    'dummy': 'kopf.zalando.org/touch-dummy' in (md.get('annotations', {}) or {})}
         sim.srv.projector = project
         sim.world.at(1, lambda: sim.create('o1', {'x': 1}, labels={'on': 'yes' if sc.get('init_on', True) else 'no'}), 1)
 
@@ -170,12 +171,120 @@ def run_scenario(sc: dict[str, Any]) -> dict[str, Any]:
         conf = {h: ({'kind': sc['handlers'][h]['kind'], 'backoff': sc['handlers'][h].get('backoff', 0), 'timeout': sc['handlers'][h].get('timeout', 0),
                      'sync': bool(sc['handlers'][h].get('sync'))}
                     if h in sc['handlers'] else none) for h in HS}
-        return {'id': sc['id'], 'conf': conf, 'events': out, 'stall': stall, 'scenario': sc}
+        sconf = {'dh': {h: {'kind': conf[h]['kind'], 'backoff': conf[h]['backoff'], 'timeout': conf[h]['timeout'], 'sync': conf[h]['sync']} for h in HS},
+                 'polling': 3, 'filter': bool(use_label), 'exitto': 2}
+        strace = convert_spawning(sim.recorder.events)
+        return {'id': sc['id'], 'conf': conf, 'events': out, 'stall': stall, 'scenario': sc,
+                'spawning': {'id': sc['id'], 'conf': sconf, 'init': strace['init'], 'events': strace['events']}}
     finally:
         sim.close()
 
 
 lastwrite: dict[str, Any] = {}
+
+
+def convert_spawning(raw: list[dict[str, Any]]) -> dict[str, Any]:
+    """Recorder log -> events of Trace_Spawning.tla. Renaming and projection only (versions -> 1, 2, 3, ... of the object)."""
+    out: list[dict[str, Any]] = []
+    off = None; init = None; last_rv = 0; pending: dict[str, Any] = {}
+    scheds: dict[int, str] = {}
+    for e in raw:
+        ev = e['ev']; t = e['t']
+        if ev == 'q.start':
+            scheds[e['sched']] = e['res']
+            continue
+        if ev == 'srv.create' and e.get('res') == 'things':
+            if off is None:
+                off = e['rv'] - 1; init = {'t': t, 'match': bool(e['proj']['match'])}; last_rv = 1
+            continue
+        if off is None:
+            continue
+        if ev == 'srv.write' and e.get('res') == 'things':
+            if e.get('noop'): continue
+            if e.get('how') == 'delete':             # removed at once (no finalizers): no srv.state follows
+                last_rv = e['rv'] - off
+                out.append({'ev': 'delete', 't': t, 'rv': last_rv, 'gone': True})
+            else:
+                pending = e
+        elif ev == 'srv.state' and e.get('res') == 'things':
+            rv = e['rv'] - off
+            if rv != last_rv + 1:
+                raise MachineryFailure(f'versions of the object are not consecutive: {last_rv} -> {rv}')
+            last_rv = rv; p = e['proj']; actor = pending.get('actor'); how = pending.get('how')
+            if how == 'delete-mark': out.append({'ev': 'delete', 't': t, 'rv': rv, 'gone': False})
+            elif actor == 'user': out.append({'ev': 'edit', 't': t, 'rv': rv, 'match': bool(p['match'])})
+            elif actor == 'foreign': out.append({'ev': 'forcefin', 't': t, 'rv': rv, 'gone': bool(e.get('gone'))})
+        elif ev in ('q.new', 'q.put') and e.get('res') == 'things' and e.get('type') is not None:
+            out.append({'ev': 'deliver', 't': t, 'rv': int(e['rv']) - off, 'type': e['type']})
+        elif ev == 'q.proc.begin' and e.get('res') == 'things':
+            out.append({'ev': 'begin', 't': t, 'rv': int(e['rv']) - off, 'type': e.get('type') or 'NONE'})
+        elif ev == 'q.proc.end' and e.get('res') == 'things':
+            out.append({'ev': 'end', 't': t})
+        elif ev == 'srv.req' and e.get('plural') == 'things' and e.get('kind') == 'patch':
+            code = e['code']; p = e.get('proj') or {}
+            if e.get('ptype') == 'merge':
+                out.append({'ev': 'merge', 't': t, 'code': code, 'rv': (p.get('rv', off) - off), 'dummy': bool(p.get('dummy')), 'fin': FIN in p.get('fins', [])})
+            else:
+                out.append({'ev': 'json', 't': t, 'code': code, 'rv': (p.get('rv', off) - off), 'fin': FIN in p.get('fins', []), 'gone': bool(e.get('gone'))})
+        elif ev == 'd.enter': out.append({'ev': 'enter', 't': t, 'h': e['h']})
+        elif ev == 'd.flagseen': out.append({'ev': 'flagseen', 't': t, 'h': e['h']})
+        elif ev == 'd.cancel': out.append({'ev': 'cancel', 't': t, 'h': e['h']})
+        elif ev == 'd.exit': out.append({'ev': 'exit', 't': t, 'h': e['h']})
+        elif ev == 't.tick': out.append({'ev': 'tick', 't': t, 'h': e['h']})
+        elif ev == 'op.stop':
+            if not any(x['ev'] == 'stop' for x in out):       # (the harness asks again when it ends the run)
+                out.append({'ev': 'stop', 't': t})
+        elif ev == 'q.depleting' and scheds.get(e.get('sched')) == 'things':
+            if not any(x['ev'] == 'closed' for x in out):     # the watcher has ended: the stream is closed from now on
+                out.append({'ev': 'closed', 't': t})
+        elif ev == 'op.return': out.append({'ev': 'down', 't': t})
+        elif ev == 'quiet': out.append({'ev': 'quiet', 't': t})
+    return {'init': init, 'events': out}
+
+
+_RE_S = re.compile(r'<<\s*"VERDICT",\s*(\d+),\s*"([^"]*)",\s*(-?\d+),\s*(-?\d+),\s*(\d+),\s*"([^"]*)"\s*>>')
+
+
+def judge_spawning(traces: list[dict[str, Any]], rep: Any = None) -> dict[str, dict[str, Any]]:
+    """Step conformance: every recorded execution must be a behaviour of Spawning.tla (Trace_Spawning in TLC)."""
+    from concurrent.futures import ThreadPoolExecutor
+    sts = [t['spawning'] for t in traces]
+    nshards = max(1, min(14, len(sts) // 10))
+    cfg = ('SPECIFICATION TSpec\nCONSTANTS\n  Hs = {"d1", "d2", "t1"}\n  ConfSet = {}\n  Horizon = 1000000\n  MaxEdits = 1000\n  MaxToggles = 1000\n'
+           '  MaxDeletes = 1000\n  MaxForce = 1000\n  MaxStops = 1000\n  MaxKills = 0\nCONSTRAINT Book\nPOSTCONDITION Verdicts\nCHECK_DEADLOCK FALSE\n')
+
+    def one(k: int):
+        group = sts[k::nshards]
+        scratch = tempfile.mkdtemp(prefix='vf-sp-')
+        try:
+            path = os.path.join(scratch, 'traces.json')
+            with open(path, 'w') as f:
+                json.dump(group, f)
+            r = tlc.run('Trace_Spawning', cfg_text=cfg, workers=1, deque=True, env={'TRACE_FILE': path}, timeout=3000)
+        finally:
+            shutil.rmtree(scratch, ignore_errors=True)
+        if not r.ok:
+            raise MachineryFailure(f'Trace_Spawning failed: {r.violated} {r.errors}\n{r.out[-3000:]}')
+        return group, r
+    with ThreadPoolExecutor(14) as ex:
+        results = list(ex.map(one, range(nshards)))
+    verdicts: dict[str, dict[str, Any]] = {}
+    agg = {'distinct': 0, 'generated': 0}
+    for group, r in results:
+        agg['distinct'] += r.distinct; agg['generated'] += r.generated
+        got = {int(m.group(1)): m for m in _RE_S.finditer(r.out)}
+        if len(got) != len(group):
+            raise MachineryFailure(f'Trace_Spawning printed {len(got)} verdicts for {len(group)} traces\n{r.out[-2000:]}')
+        for i, t in enumerate(group, start=1):
+            m = got[i]; strict, loose, n, bad = int(m.group(3)), int(m.group(4)), int(m.group(5)), m.group(6)
+            if strict == n: v = 'ok'
+            elif loose == n: v = bad
+            else: v = f'rejected at event {loose + 1} of {n}: {t["events"][loose] if loose < len(t["events"]) else None}'
+            verdicts[t['id']] = {'verdict': v, 'reach': loose, 'n': n}
+    if rep is not None:
+        rep.states += agg['distinct']; rep.transitions += agg['generated']
+        rep.tlc_runs.append({'config': f'Trace_Spawning ({len(results)} shards)', 'distinct_states': agg['distinct'], 'states_generated': agg['generated']})
+    return verdicts
 
 
 def gen_scenarios(seed: int, n: int) -> list[dict[str, Any]]:
@@ -200,6 +309,22 @@ def gen_scenarios(seed: int, n: int) -> list[dict[str, Any]]:
             env.append((t, rnd.choice([0, 1]), rnd.choice(['toggle', 'toggle', 'edit', 'delete', 'forcefin', 'stop'])))
         out.append({'id': f'daemons-{seed}-{i}', 'handlers': hs, 'env': env, 'init_on': rnd.random() < 0.85,
                     'delete_before_finalizer': False, 'end': t + 60})
+    return out
+
+
+def crafted() -> list[dict[str, Any]]:
+    """Histories aimed at the arithmetic of the stages: a second look at a stopping daemon while its backoff or its cancellation
+    timeout is running (the remaining delay must shrink with the age of the flag), for every reaction and for threads."""
+    out = []
+    for k, (reaction, b, t, sync) in enumerate([('cancel', 3, 0, False), ('cancel', 3, 4, False), ('ignore', 2, 4, False), ('ignore', 3, 0, False),
+                                                ('cancel', 2, 4, True), ('obey', 3, 2, False), ('ignore', 0, 4, False), ('cancel', 0, 3, True)]):
+        for how in ('toggle', 'delete'):
+            for looks in ((1,), (1, 2), (b + 1,), (b + 1, b + 2)):
+                env = [(5, 1, how)] + [(5 + d, 1, 'edit') for d in looks if how == 'toggle' or True]
+                out.append({'id': f'dcrafted-{k}-{how}-{"_".join(map(str, looks))}',
+                            'handlers': {'d1': {'kind': 'daemon', 'reaction': reaction, 'after': 6 if reaction == 'obey' else 0,
+                                                'backoff': b, 'timeout': t, 'sync': sync}},
+                            'env': env, 'init_on': True, 'delete_before_finalizer': False, 'end': 60})
     return out
 
 
